@@ -46,6 +46,17 @@ fn gen_string(s: &mut Src, max: usize) -> String {
     let n = 1 + s.len(max);
     let mut out = String::new();
     for _ in 0..n {
+        if s.chance(2) {
+            // long plain run up to (and just past) the sizes buffers and strides use,
+            // so that what follows it sits behind a length threshold
+            let base = *s.pick(&[16usize, 32, 64, 128, 256, 1024, 4096, 8192, 16384, 65536]);
+            let len = (base + s.below(4)).saturating_sub(2);
+            let fill = *s.pick(&["a", " ", "é", "b&amp;", "\u{A0}", "x"]);
+            while out.len() < len {
+                out.push_str(fill);
+            }
+            continue;
+        }
         match s.below(6) {
             0 | 1 => out.push(s.char_from(SPECIAL_CHARS)),
             2 => out.push_str(*s.pick(SNIPPETS)),
